@@ -321,6 +321,13 @@ def write_evidence(pid, P, tier, seed, obligations, functions, backends, notes, 
     for u in units:
         assumptions += ["%s: %s" % (u["id"], a) for a in u.get("assumptions", [])]
     assumptions += P.get("assumptions", [])
+    if any(u["id"] in ("A7", "A8") for u in units):
+        stf = os.path.join(ROOT, ".cache", "simd_selftest.json")
+        if os.path.exists(stf):
+            st = json.load(open(stf))
+            assumptions.append("E4 instruction models cross-checked on this host at setup: rc=%s %s" % (st.get("rc"), st.get("summary")))
+        else:
+            assumptions.append("E4 instruction models NOT cross-checked in this sandbox copy (./check --setup not run): models unvalidated")
     assumptions += ["scan: " + s for s in sorted(set(scan))]
     level = P["level"]
     cov = dict(
@@ -367,6 +374,20 @@ def setup():
                 log("property %s names unknown unit %s" % (pid, u))
                 ok = False
     log("units: %d, properties claimed: %d" % (len(UNITS), len(PROPS)))
+    # E4: differential self-test of the instruction models against this host's CPU
+    st = os.path.join(ROOT, "tools", "simd_model_selftest.sh")
+    if os.path.exists(st):
+        try:
+            p = subprocess.run(["sh", st, "200000"], capture_output=True, text=True, timeout=900)
+            last = (p.stdout.strip().splitlines() or [""])[-1]
+            log("E4 self-test: rc=%d %s" % (p.returncode, last))
+            os.makedirs(os.path.join(ROOT, ".cache"), exist_ok=True)
+            with open(os.path.join(ROOT, ".cache", "simd_selftest.json"), "w") as f:
+                json.dump(dict(rc=p.returncode, summary=last, at=time.time()), f)
+            ok &= p.returncode == 0
+        except Exception as e:
+            log("E4 self-test failed to run: %s" % e)
+            ok = False
     return 0 if ok else 1
 
 
